@@ -742,6 +742,121 @@ theorem wildcard_nodata_sound (hE : EncOrd enc) (hp : mkPairs soa recs = some pa
     · simp [ha] at h
   · cases h
 
+/-! ### the property theorems: soundness of `verify_nsec3`
+
+For every repair combination `fx`, hash function `H`, order-embedding encoder `enc`, query name,
+type, SOA name, record list, limits, and every well-formed zone view `Z` the records are consistent
+with.  For the repaired code (`fx = allFixed`) the side conditions `hw ho hd hx ha` hold by `Or.inl
+rfl` — these are the full-strength statements; for the code as it is (`fx = asIs`) they are the
+explicit decidable restrictions of the input (`_partial` reading), and `Proofs/C09Findings.lean` has
+a kernel-checked counter-example outside each of them. -/
+
+/-- collision-freeness of the hash at the names a proof for `ql` talks about -/
+def NoCollisions (H : Name → Bytes) (Z : ZoneView) (ql : List Bytes) : Prop :=
+  ∀ a, a <:+ ql → NoCollisionAt H Z a ∧ NoCollisionAt H Z ([42] :: a)
+
+theorem noDelegNS_of_noDelegRec (h : NoDelegRec recs) : NoDelegNS recs := by
+  intro r hr
+  have := h r hr
+  simp only [isDelegationRec, Bool.or_eq_false_iff] at this
+  exact this.1
+
+/-- **RFC 5155 §8.4.**  An NXDOMAIN response accepted as `Secure` really is a name error. -/
+theorem verify_name_error_sound (hE : EncOrd enc) {ql : List Bytes} {qtype : Nat}
+    {wl : Option Nat} {soft hard : Nat}
+    (h : verifyNsec3 fx H enc (mk ql) qtype soa rcNXDomain wl recs soft hard = .secure)
+    (hZ : Z.WF) (hc : ConsistentWith3 H enc recs Z) (hinj : NoCollisions H Z ql)
+    (hw : fx.wrap = true ∨ NoWrap enc recs) (ho : fx.optout = true ∨ NoOptOut recs)
+    (hd : fx.deleg = true ∨ NoDelegRec recs) :
+    ClaimNameError Z ql := by
+  obtain ⟨f, ps, hp, _, _, hs⟩ :=
+    gate_passed fx H enc (mk ql) qtype soa rcNXDomain wl recs soft hard h (by simp)
+  rcases (hs rfl).2 with ⟨_, hv⟩ | ⟨hrc, _⟩
+  · exact nxdomain_sound hE hp hc hZ hw ho hd (fun a ha => (hinj a ha).1) hv
+  · cases hrc
+
+/-- **RFC 5155 §8.5, §8.6, §8.7.**  A NOERROR response without answer RRSIG accepted as `Secure`:
+for QTYPE = DS there is no DS RRset at QNAME; otherwise it is a NODATA (type and CNAME absent, not a
+delegation point) or a wildcard NODATA.  `ha` excludes the apex arm (finding 1). -/
+theorem verify_nodata_sound (hE : EncOrd enc) {ql : List Bytes} {qtype : Nat} {soft hard : Nat}
+    (h : verifyNsec3 fx H enc (mk ql) qtype soa rcNoError none recs soft hard = .secure)
+    (hZ : Z.WF) (hc : ConsistentWith3 H enc recs Z) (hinj : NoCollisions H Z ql)
+    (hw : fx.wrap = true ∨ NoWrap enc recs) (ho : fx.optout = true ∨ NoOptOut recs)
+    (hd : fx.deleg = true ∨ NoDelegRec recs)
+    (ha : fx.apex = true ∨ eqSoa soa (mk ql) = false) :
+    (qtype = tDS → ClaimNoDS Z ql) ∧
+    (qtype ≠ tDS → ClaimNoData Z ql qtype ∨ ClaimWildcardNoData Z ql qtype) := by
+  obtain ⟨f, ps, hp, _, _, hs⟩ :=
+    gate_passed fx H enc (mk ql) qtype soa rcNoError none recs soft hard h (by simp)
+  rcases (hs rfl).2 with ⟨hrc, _⟩ | ⟨_, hv⟩
+  · cases hrc
+  · have hd' : fx.deleg = true ∨ NoDelegNS recs := hd.imp id noDelegNS_of_noDelegRec
+    have hwe : wildExp fx (mk ql) none = false := by simp [wildExp]
+    unfold validateNodata at hv
+    simp only [hwe, Bool.false_eq_true, if_false, Bool.not_false, Bool.true_and] at hv
+    split at hv
+    · rename_i r hm
+      have hcl := nodata_match_sound hE hp hc (hinj ql (List.suffix_refl _)).1 hm hv hd'
+      exact ⟨fun hds => by subst hds; exact hcl.1, fun _ => .inl hcl⟩
+    · split at hv
+      · rename_i hds
+        have hq : qtype = tDS := by
+          simp only [dsOptOut, Bool.and_eq_true, beq_iff_eq] at hds
+          exact hds.1
+        exact ⟨fun _ => ds_optout_sound hE hp hc hw hds, fun hne => absurd hq hne⟩
+      · have hcl := wildcard_nodata_sound hE hp hc hZ hw ho hd ha hinj hv
+        refine ⟨fun _ => ?_, fun _ => .inr hcl⟩
+        intro ⟨ts, hts, _⟩
+        exact hcl.1 (by simp [ZoneView.has, hts])
+
+/-- no shortcut through a record matching (or opt-out covering) QNAME — what the `wild` repair
+enforces for wildcard expansions -/
+def NoQnameShortcut (fx : Fixes) (H : Name → Bytes) (enc : Bytes → Bytes) (q : Name) (qtype : Nat)
+    (pairs : List Pair) : Prop :=
+  findMatching pairs (enc (H q)) = none ∧ dsOptOut fx H enc q qtype pairs = false
+
+/-- **RFC 5155 §8.8.**  A wildcard expansion (answer RRSIG with `k` labels, fewer than QNAME has)
+accepted as `Secure`: no ancestor-or-self of QNAME with more than `k` labels exists. -/
+theorem verify_wildcard_answer_sound (hE : EncOrd enc) {ql : List Bytes} {qtype k : Nat}
+    {soft hard : Nat}
+    (h : verifyNsec3 fx H enc (mk ql) qtype soa rcNoError (some k) recs soft hard = .secure)
+    (hk : k < (mk ql).numLabels) (hZ : Z.WF) (hak : Z.apex.length ≤ k)
+    (hc : ConsistentWith3 H enc recs Z)
+    (hw : fx.wrap = true ∨ NoWrap enc recs) (ho : fx.optout = true ∨ NoOptOut recs)
+    (hx : fx.wild = true ∨ ∀ pairs, mkPairs soa recs = some pairs →
+      NoQnameShortcut fx H enc (mk ql) qtype pairs) :
+    ClaimWildcardAnswer Z ql k := by
+  obtain ⟨f, ps, hp, _, _, hs⟩ :=
+    gate_passed fx H enc (mk ql) qtype soa rcNoError (some k) recs soft hard h (by simp)
+  rcases (hs rfl).2 with ⟨hrc, _⟩ | ⟨_, hv⟩
+  · cases hrc
+  · have key : nodataWildAnswer fx H enc (mk ql) k (f :: ps) = .secure := by
+      unfold validateNodata at hv
+      rcases hx with hx | hx
+      · have hwe : wildExp fx (mk ql) (some k) = true := by simp [wildExp, hx, hk]
+        simpa [hwe] using hv
+      · obtain ⟨h1, h2⟩ := hx _ hp
+        by_cases hwe : wildExp fx (mk ql) (some k) = true
+        · simpa [hwe] using hv
+        · simpa [hwe, h1, h2] using hv
+    exact wildcard_answer_sound hE hp hc hZ hw ho hak key
+
+/-- the full-strength instance: for the code with all five repairs no side condition is left -/
+theorem allFixed_sound (hE : EncOrd enc) {ql : List Bytes} {qtype : Nat} {wl : Option Nat}
+    {soft hard : Nat} (hZ : Z.WF) (hc : ConsistentWith3 H enc recs Z)
+    (hinj : NoCollisions H Z ql) :
+    (verifyNsec3 allFixed H enc (mk ql) qtype soa rcNXDomain wl recs soft hard = .secure →
+      ClaimNameError Z ql) ∧
+    (verifyNsec3 allFixed H enc (mk ql) qtype soa rcNoError none recs soft hard = .secure →
+      (qtype = tDS → ClaimNoDS Z ql) ∧
+      (qtype ≠ tDS → ClaimNoData Z ql qtype ∨ ClaimWildcardNoData Z ql qtype)) ∧
+    (∀ k, k < (mk ql).numLabels → Z.apex.length ≤ k →
+      verifyNsec3 allFixed H enc (mk ql) qtype soa rcNoError (some k) recs soft hard = .secure →
+      ClaimWildcardAnswer Z ql k) :=
+  ⟨fun h => verify_name_error_sound hE h hZ hc hinj (.inl rfl) (.inl rfl) (.inl rfl),
+   fun h => verify_nodata_sound hE h hZ hc hinj (.inl rfl) (.inl rfl) (.inl rfl) (.inl rfl),
+   fun _ hk hak h => verify_wildcard_answer_sound hE h hk hZ hak hc (.inl rfl) (.inl rfl) (.inl rfl)⟩
+
 end
 
 end HickoryVerif.C09
